@@ -1,14 +1,16 @@
-SPECIFICATION Spec
+SPECIFICATION PSpec
 CONSTANTS
   RewriteAllSites = TRUE
   RewriteOnEndpoint <- AllEndpoints
   SingleApplyPath = TRUE
   SiteIndependent = TRUE
   Mode = "gen"
-  MaxReq = 6
-  MaxClock = 4
-  MaxSnaps = 2
-  MaxStmts = 3
+  MaxReq = 10
+  MaxClock = 2
+  MaxSnaps = 1
+  MaxStmts = 1
   McAlphabet = "small"
   Reduced = FALSE
+  Seed = 1
+  Variants = 2
 INVARIANTS Converge LogDeterministic RewrittenIffMust Emit
